@@ -157,4 +157,18 @@ Section Client.
   Definition client_transact (s : mstorage) (writes : T -> T) (ok : bool) (rs : list receipt) : mstorage :=
     let s' := {| ms_memory := writes (ms_memory s); ms_transacted := ms_transacted s |} in
     if ok then (if should_revert rs then revert s' else commit s') else revert s'.
+  (* MemoryClient::deploy / upgrade / upload / blob: Transactor::deploy -> Interpreter::deploy writes
+     into `memory`; there is NO commit *)
+  Definition client_deploy (s : mstorage) (writes : T -> T) : mstorage :=
+    {| ms_memory := writes (ms_memory s); ms_transacted := ms_transacted s |}.
+
+  (* a history of client calls *)
+  Inductive cevent :=
+  | CDeploy (writes : T -> T)
+  | CTransact (writes : T -> T) (ok : bool) (rs : list receipt).
+  Definition client_step (s : mstorage) (e : cevent) : mstorage :=
+    match e with
+    | CDeploy w => client_deploy s w
+    | CTransact w ok rs => client_transact s w ok rs
+    end.
 End Client.
